@@ -37,14 +37,53 @@ fn base() -> &'static [u8] {
 }
 
 fn block_types() -> Vec<(BlockType, wasmparser::BlockType)> {
-    vec![
+    use wasmparser::AbstractHeapType as P;
+    use wasmparser::ValType as V;
+    let r = |nullable: bool, ty: P| -> wasmparser::BlockType {
+        wasmparser::BlockType::Type(V::Ref(wasmparser::RefType::new(nullable, wasmparser::HeapType::Abstract { shared: false, ty }).expect("ref type")))
+    };
+    let mut v = vec![
         (BlockType::Empty, wasmparser::BlockType::Empty),
-        (BlockType::Type(DataType::I32), wasmparser::BlockType::Type(wasmparser::ValType::I32)),
-        (BlockType::Type(DataType::F64), wasmparser::BlockType::Type(wasmparser::ValType::F64)),
-        (BlockType::Type(DataType::FuncRefNull), wasmparser::BlockType::Type(wasmparser::ValType::FUNCREF)),
         (BlockType::FuncType(TypeID(0)), wasmparser::BlockType::FuncType(0)),
         (BlockType::FuncType(TypeID(7)), wasmparser::BlockType::FuncType(7)),
-    ]
+    ];
+    // every value type the IR can name as a single block result
+    for (d, w) in [(DataType::I32, V::I32), (DataType::I64, V::I64), (DataType::F32, V::F32), (DataType::F64, V::F64), (DataType::V128, V::V128)] {
+        v.push((BlockType::Type(d), wasmparser::BlockType::Type(w)));
+    }
+    for (d, n, ty) in [
+        (DataType::FuncRef, false, P::Func),
+        (DataType::FuncRefNull, true, P::Func),
+        (DataType::ExternRef, false, P::Extern),
+        (DataType::ExternRefNull, true, P::Extern),
+        (DataType::Any, false, P::Any),
+        (DataType::AnyNull, true, P::Any),
+        (DataType::None, false, P::None),
+        (DataType::NoneNull, true, P::None),
+        (DataType::NoExtern, false, P::NoExtern),
+        (DataType::NoExternNull, true, P::NoExtern),
+        (DataType::NoFunc, false, P::NoFunc),
+        (DataType::NoFuncNull, true, P::NoFunc),
+        (DataType::Eq, false, P::Eq),
+        (DataType::EqNull, true, P::Eq),
+        (DataType::Struct, false, P::Struct),
+        (DataType::StructNull, true, P::Struct),
+        (DataType::Array, false, P::Array),
+        (DataType::ArrayNull, true, P::Array),
+        (DataType::I31, false, P::I31),
+        (DataType::I31Null, true, P::I31),
+        (DataType::Exn, false, P::Exn),
+        (DataType::ExnNull, true, P::Exn),
+        (DataType::NoExn, false, P::NoExn),
+        (DataType::NoExnNull, true, P::NoExn),
+    ] {
+        v.push((BlockType::Type(d), r(n, ty)));
+    }
+    for nullable in [false, true] {
+        let rt = wasmparser::RefType::new(nullable, wasmparser::HeapType::Concrete(wasmparser::UnpackedIndex::Module(3))).expect("ref type");
+        v.push((BlockType::Type(DataType::Module { ty_id: 3, nullable }), wasmparser::BlockType::Type(V::Ref(rt))));
+    }
+    v
 }
 
 fn heap_types() -> Vec<(HeapType, wasmparser::HeapType)> {
@@ -244,11 +283,18 @@ pub fn check(tier: Tier) -> i32 {
     if table != src {
         let missing: Vec<_> = src.difference(&table).collect();
         let extra: Vec<_> = table.difference(&src).collect();
-        run.machinery_error(format!(
-            "helper set of src/opcode.rs differs from the expectation table (regenerate with tools/gen_c24_table.py): not in table {:?}, not in source {:?}",
-            missing, extra
-        ));
-        return run.finish();
+        if !extra.is_empty() {
+            // a tabled helper is gone from the source: the harness cannot even have compiled against it
+            run.machinery_error(format!(
+                "helper set of src/opcode.rs differs from the expectation table (regenerate with tools/gen_c24_table.py): not in source {:?}",
+                extra
+            ));
+            return run.finish();
+        }
+        // helpers the table does not know (added to the library later): a hole in the claim, stated in
+        // the evidence; every tabled helper is still checked
+        run.extra.insert("helpers_in_source_without_expectation".into(), serde_json::json!(missing));
+        run.assumptions.push(format!("{} helper(s) of src/opcode.rs are not in the expectation table and are NOT checked: {:?} (regenerate with tools/gen_c24_table.py)", missing.len(), missing));
     }
     // which domain does each helper use: ask the table with a dry call
     let mut cases = vec![];
